@@ -47,6 +47,11 @@ class PyExc(Exception):
 # ---------------------------------------------------------------------------
 # the current path context (one per path execution, set by spec.explore)
 
+import os as _os
+
+_DUMPN = 0
+_FORKS = {} if _os.environ.get("PYVC_FORKS") else None
+_SLOW = float(_os.environ.get("PYVC_SLOW", "0") or 0)
 CUR: "PathCtx | None" = None
 
 
@@ -495,6 +500,16 @@ def _mod(a, b):
 # obligations
 
 
+class _SatNoModel:
+    """cvc5 answered sat (no model is imported): compares unequal to z3.sat/unsat/unknown."""
+
+    def __repr__(self):
+        return "sat(cvc5)"
+
+
+_SAT_NO_MODEL = _SatNoModel()
+
+
 class Obligation:
     __slots__ = ("name", "kind", "result", "backend", "solver_s", "model", "where", "detail", "smt")
 
@@ -524,6 +539,10 @@ class PathCtx:
         self.solver = z3.Solver()
         self.solver.set("timeout", timeout_ms)
         self.timeout_ms = timeout_ms
+        self.branch_timeout_ms = 300
+        self.use_cvc5 = True
+        self.cvc5_calls = 0
+        self.last_backend = "z3"
         self.prefix = list(prefix)
         self.trace = []  # decisions taken so far on this path
         self.pending = []  # new prefixes to explore
@@ -581,18 +600,49 @@ class PathCtx:
         return SReal(t)
 
     # -- solver plumbing ---------------------------------------------------
-    def _check(self, *extra):
+    def _check(self, *extra, timeout_ms=None):
         t0 = time.time()
         self.solver.push()
         try:
             for e in extra:
                 self.solver.add(e)
+            if timeout_ms is not None:
+                self.solver.set("timeout", timeout_ms)
             r = self.solver.check()
             m = self.solver.model() if r == z3.sat else None
+            if r == z3.unknown and self.use_cvc5:
+                # second back end: cvc5 decides most nonlinear queries z3 gives up on
+                from .cvc5be import check_smt2
+
+                r2, _dt = check_smt2(self.solver.to_smt2(), timeout_ms=(timeout_ms or self.timeout_ms) * 2)
+                self.cvc5_calls += 1
+                if r2 == "unsat":
+                    r = z3.unsat
+                    self.last_backend = "cvc5"
+                elif r2 == "sat":
+                    r = _SAT_NO_MODEL
+                    self.last_backend = "cvc5"
         finally:
+            if timeout_ms is not None:
+                self.solver.set("timeout", self.timeout_ms)
             self.solver.pop()
-        self.solver_s += time.time() - t0
+        dt = time.time() - t0
+        self.solver_s += dt
         self.nchecks += 1
+        if _SLOW and dt > _SLOW:
+            import traceback
+            global _DUMPN
+            _DUMPN += 1
+            if _DUMPN <= 12:
+                s2 = z3.Solver()
+                for a_ in self.solver.assertions():
+                    s2.add(a_)
+                for e in extra:
+                    s2.add(e)
+                open(f"/tmp/slowq_{_DUMPN}_{r}.smt2", "w").write(s2.to_smt2())
+            print(f"[slow {dt:.1f}s -> {r}] extra={[str(e)[:300] for e in extra]}", flush=True)
+            print("   asserted:", [str(a)[:160] for a in self.solver.assertions()][-14:], flush=True)
+            print("   at:", [f"{f.name}:{f.lineno}" for f in traceback.extract_stack()[-9:-1]], flush=True)
         return r, m
 
     def assume(self, t):
@@ -610,11 +660,11 @@ class PathCtx:
             return True
         if z3.is_false(t):
             return False
-        r, _ = self._check(z3.Not(t))
+        r, _ = self._check(z3.Not(t), timeout_ms=self.branch_timeout_ms)
         return r == z3.unsat
 
     def feasible(self, t=None):
-        r, _ = self._check(*([] if t is None else [tb(t)]))
+        r, _ = self._check(*([] if t is None else [tb(t)]), timeout_ms=self.branch_timeout_ms)
         return r != z3.unsat
 
     def hint_div(self, a, b):
@@ -656,11 +706,15 @@ class PathCtx:
             return choice
         if i >= self.max_decisions:
             raise PathBudget(f"more than {self.max_decisions} decisions on one path")
-        rt, _ = self._check(cond)
-        rf, _ = self._check(z3.Not(cond))
+        # feasibility checks get a short budget: `unknown` is treated as feasible (sound: more paths explored)
+        rt, _ = self._check(cond, timeout_ms=self.branch_timeout_ms)
+        rf, _ = self._check(z3.Not(cond), timeout_ms=self.branch_timeout_ms)
         can_t = rt != z3.unsat
         can_f = rf != z3.unsat
         if can_t and can_f:
+            if _FORKS is not None:
+                key = (getattr(self, "cur_line", None), "unk" if (rt != z3.sat or rf != z3.sat) else "sat")
+                _FORKS[key] = _FORKS.get(key, 0) + 1
             self.pending.append(self.trace + [False])
             self.trace.append(True)
             self.solver.add(cond)
@@ -685,23 +739,32 @@ class PathCtx:
             self.obligations.append(ob)
             return ob
         t0 = time.time()
-        r, m = self._check(z3.Not(term))
+        self.last_backend = "z3"
+        # quick attempt first (most obligations are immediate), then the full budget; cvc5 takes z3's unknowns
+        r, m = self._check(z3.Not(term), timeout_ms=min(2000, self.timeout_ms))
+        if r == z3.unknown:
+            self.last_backend = "z3"
+            r, m = self._check(z3.Not(term))
         dt = time.time() - t0
-        smt = None
+        be = self.last_backend
         if r == z3.unsat:
-            ob = Obligation(name, kind, "discharged", "z3", dt, where=where, detail=detail)
+            ob = Obligation(name, kind, "discharged", be, dt, where=where, detail=detail)
         elif r == z3.sat:
-            ob = Obligation(name, kind, "failed", "z3", dt, model=self.model_dict(m), where=where, detail=detail)
+            ob = Obligation(name, kind, "failed", be, dt, model=self.model_dict(m), where=where, detail=detail)
+        elif r is _SAT_NO_MODEL:
+            # cvc5 found a counterexample z3 could not: ask z3 for a model with a generous budget, else report without
+            from .cvc5be import check_smt2
+
+            self.solver.push()
+            self.solver.add(z3.Not(term))
+            try:
+                _r, _dt, cm = check_smt2(self.solver.to_smt2(), timeout_ms=self.timeout_ms * 2, want_model=True)
+            finally:
+                self.solver.pop()
+            cm = {k_: v_ for k_, v_ in cm.items() if k_ in self.symvars}
+            ob = Obligation(name, kind, "failed", "cvc5", dt, model=cm, where=where, detail=detail)
         else:
-            # try harder: nonlinear tactic, then cvc5 is handled by the caller (spec runner) from the dump
-            r2, m2, dt2, be = self._retry(term)
-            dt += dt2
-            if r2 == "unsat":
-                ob = Obligation(name, kind, "discharged", be, dt, where=where, detail=detail)
-            elif r2 == "sat":
-                ob = Obligation(name, kind, "failed", be, dt, model=m2, where=where, detail=detail)
-            else:
-                ob = Obligation(name, kind, "unknown", be, dt, where=where, detail=detail)
+            ob = Obligation(name, kind, "unknown", "z3+cvc5", dt, where=where, detail=detail)
         self.obligations.append(ob)
         if assume_after:
             self.solver.add(term)
